@@ -38,8 +38,15 @@ func ageFact(ft eng.Fact, isValidity func(ast.Expr) bool) (ts ast.Expr, expired 
 				return call.Args[0]
 			}
 		case "(time.Time).Sub":
+			// now.Sub(ts): the receiver must be the current time — time.Now() itself or a
+			// local assigned once from it (a shifted clock such as time.Now().Add(d) measures another age)
 			if len(call.Args) == 1 {
-				return call.Args[0]
+				if sel, ok := eng.Unparen(call.Fun).(*ast.SelectorExpr); ok {
+					recv := resolveLocal(ft.C.F, sel.X)
+					if nowCall, isNow := eng.Unparen(recv).(*ast.CallExpr); isNow && eng.CalleeName(info, nowCall) == "time.Now" {
+						return call.Args[0]
+					}
+				}
 			}
 		}
 		return nil
@@ -79,6 +86,8 @@ func runC07(c *Ctx) {
 		},
 	}, "dht/records")
 	c.Check("accesses", 0, n >= 3, "at least 3 guarded accesses exist", "found "+itoa(n))
+	// and no function of the package returns with a mutex it took still held
+	checkBalancedLocks(c, "dht/records")
 	// the sweep really touches nothing but the datastore
 	{
 		f := c.Fn("(*" + pmT + ").collectExpired")
